@@ -1,6 +1,7 @@
 /-
   Lemmas about the price-system validator: rounding (`round2` is within 1/200 and monotone), hence the
-  rounded comparisons accept everything exact and reject everything off by more than 1/100.
+  rounded comparisons (`round_cmp` rounds the DIFFERENCE) accept everything exact, treat numbers less than half a cent
+  apart as equal and reject everything off by more than half a cent (a fortiori 1/100).
 -/
 import PabuModel.Price
 import Mathlib.Tactic.Linarith
@@ -113,17 +114,131 @@ theorem round2_lt_of_gap {x y : Rat} (h : x + 1 / 100 < y) : round2 x < round2 y
   rw [abs_le] at hx hy
   linarith [hx.2, hy.1]
 
+/-- the rounding grid: `round2` of a number within half a cent of 0 is 0 (used for `round_cmp`, which rounds the
+    difference of the two numbers it compares) -/
+theorem round2_eq_zero_of_abs_lt {x : Rat} (h : |x| < 1 / 200) : round2 x = 0 := by
+  rw [abs_lt] at h
+  have hfl : (x * 100).floor = 0 ∨ (x * 100).floor = -1 := by
+    have h1 : (-1 : Int) ≤ (x * 100).floor := Rat.le_floor_iff.mpr (by push_cast; linarith [h.1])
+    have h2 : (x * 100).floor < 1 := by
+      by_contra hc
+      have : ((1 : Int) : Rat) ≤ x * 100 := Rat.le_floor_iff.mp (by omega)
+      push_cast at this
+      linarith [h.2]
+    omega
+  unfold round2 roundHalfEven
+  rcases hfl with h0 | h0
+  · rw [h0]
+    have : x * 100 - ((0 : Int) : Rat) < 1 / 2 := by push_cast; linarith [h.2]
+    rw [if_pos this]; norm_num
+  · rw [h0]
+    have h1 : ¬ (x * 100 - ((-1 : Int) : Rat) < 1 / 2) := by push_cast; linarith [h.1]
+    have h2 : 1 / 2 < x * 100 - ((-1 : Int) : Rat) := by push_cast; linarith [h.1]
+    rw [if_neg h1, if_pos h2]; norm_num
+
+/-- a number more than half a cent above 0 rounds to at least one cent -/
+theorem round2_ge_cent_of_gt {x : Rat} (h : 1 / 200 < x) : 1 / 100 ≤ round2 x := by
+  have h1 : ((1 : Int) : Rat) ≤ ((roundHalfEven (x * 100) : Int) : Rat) := by
+    have : (1 : Int) ≤ roundHalfEven (x * 100) := by
+      by_contra hc
+      have hle : roundHalfEven (x * 100) ≤ 0 := by omega
+      have hle' : ((roundHalfEven (x * 100) : Int) : Rat) ≤ 0 := by exact_mod_cast hle
+      have hcl := rhe_close (x * 100)
+      rw [abs_le] at hcl
+      linarith [hcl.1]
+    exact_mod_cast this
+  unfold round2
+  push_cast at h1
+  linarith
+
+/-- a number more than half a cent below 0 rounds to at most minus one cent -/
+theorem round2_le_neg_cent_of_lt {x : Rat} (h : x < -(1 / 200)) : round2 x ≤ -(1 / 100) := by
+  have h1 : ((roundHalfEven (x * 100) : Int) : Rat) ≤ ((-1 : Int) : Rat) := by
+    have : roundHalfEven (x * 100) ≤ -1 := by
+      by_contra hc
+      have hle : 0 ≤ roundHalfEven (x * 100) := by omega
+      have hle' : (0 : Rat) ≤ ((roundHalfEven (x * 100) : Int) : Rat) := by exact_mod_cast hle
+      have hcl := rhe_close (x * 100)
+      rw [abs_le] at hcl
+      linarith [hcl.2]
+    exact_mod_cast this
+  unfold round2
+  push_cast at h1
+  linarith
+
+/-- `round_cmp(x, y, 2) = round(x - y, 2)` -/
+theorem roundCmp_def (x y : Rat) : roundCmp x y = round2 (x - y) := rfl
+
 theorem roundCmp_nonpos {x y : Rat} (h : x ≤ y) : roundCmp x y ≤ 0 := by
-  unfold roundCmp; linarith [round2_mono h]
+  unfold roundCmp
+  have := round2_mono (x := x - y) (y := 0) (by linarith)
+  rw [round2_zero] at this
+  exact this
+
+theorem roundCmp_nonneg {x y : Rat} (h : y ≤ x) : 0 ≤ roundCmp x y := by
+  unfold roundCmp
+  have := round2_mono (x := 0) (y := x - y) (by linarith)
+  rw [round2_zero] at this
+  exact this
 
 theorem roundCmp_eq_zero {x y : Rat} (h : x = y) : roundCmp x y = 0 := by
-  unfold roundCmp; rw [h]; ring
+  unfold roundCmp; rw [h, sub_self, round2_zero]
 
-theorem roundCmp_pos_of_gap {x y : Rat} (h : y + 1 / 100 < x) : 0 < roundCmp x y := by
-  unfold roundCmp; linarith [round2_lt_of_gap h]
+/-- the repaired comparison is monotone in its first argument and antitone in the second -/
+theorem roundCmp_mono {x x' y y' : Rat} (hx : x ≤ x') (hy : y' ≤ y) : roundCmp x y ≤ roundCmp x' y' := by
+  unfold roundCmp
+  exact round2_mono (by linarith)
 
-theorem roundCmp_neg_of_gap {x y : Rat} (h : x + 1 / 100 < y) : roundCmp x y < 0 := by
-  unfold roundCmp; linarith [round2_lt_of_gap h]
+/-- two numbers less than half a cent apart compare as equal, wherever they lie (in particular across a rounding
+    boundary such as 2.375: the defect of the former `round(a, 2) - round(b, 2)`) -/
+theorem roundCmp_eq_zero_of_close {x y : Rat} (h : |x - y| < 1 / 200) : roundCmp x y = 0 :=
+  round2_eq_zero_of_abs_lt h
+
+theorem roundCmp_pos_of_gt {x y : Rat} (h : y + 1 / 200 < x) : 0 < roundCmp x y := by
+  unfold roundCmp
+  have := round2_ge_cent_of_gt (x := x - y) (by linarith)
+  linarith
+
+theorem roundCmp_neg_of_lt {x y : Rat} (h : x + 1 / 200 < y) : roundCmp x y < 0 := by
+  unfold roundCmp
+  have := round2_le_neg_cent_of_lt (x := x - y) (by linarith)
+  linarith
+
+/-- sharp characterisation up to the half-cent boundary itself: positive ⇒ at least half a cent above -/
+theorem roundCmp_pos_imp {x y : Rat} (h : 0 < roundCmp x y) : y + 1 / 200 ≤ x := by
+  by_contra hc
+  have hlt : x - y < 1 / 200 := by linarith [not_le.mp hc]
+  by_cases hneg : x - y ≤ 0
+  · have := roundCmp_nonpos (x := x) (y := y) (by linarith)
+    linarith
+  · have := roundCmp_eq_zero_of_close (x := x) (y := y) (by rw [abs_lt]; constructor <;> linarith [not_le.mp hneg])
+    linarith
+
+theorem roundCmp_neg_imp {x y : Rat} (h : roundCmp x y < 0) : x + 1 / 200 ≤ y := by
+  by_contra hc
+  have hlt : -(1 / 200) < x - y := by linarith [not_le.mp hc]
+  by_cases hpos : 0 ≤ x - y
+  · have := roundCmp_nonneg (x := x) (y := y) (by linarith)
+    linarith
+  · have := roundCmp_eq_zero_of_close (x := x) (y := y) (by rw [abs_lt]; constructor <;> linarith [not_le.mp hpos])
+    linarith
+
+/-- `round_cmp(x, y, 2) = 0` exactly within half a cent (the two boundary points ±1/200 round to the even cent 0) -/
+theorem roundCmp_eq_zero_imp {x y : Rat} (h : roundCmp x y = 0) : |x - y| ≤ 1 / 200 := by
+  rw [abs_le]
+  constructor
+  · by_contra hc
+    have := roundCmp_neg_of_lt (x := x) (y := y) (by linarith [not_le.mp hc])
+    linarith
+  · by_contra hc
+    have := roundCmp_pos_of_gt (x := x) (y := y) (by linarith [not_le.mp hc])
+    linarith
+
+theorem roundCmp_pos_of_gap {x y : Rat} (h : y + 1 / 100 < x) : 0 < roundCmp x y :=
+  roundCmp_pos_of_gt (by linarith)
+
+theorem roundCmp_neg_of_gap {x y : Rat} (h : x + 1 / 100 < y) : roundCmp x y < 0 :=
+  roundCmp_neg_of_lt (by linarith)
 
 end Pabu.Price
 
